@@ -395,7 +395,38 @@ META["C06"] = {"files": ["pktitr.c", "loop.c", "packet.c", "map.c"], "functions"
                "assumptions": ["the SELECT returns rows ordered by row_num > 0 with names of the loop (its own contract)", "row scripts and call sequences concrete, enumerated"],
                "outside": ["that the SELECT returns each stored packet exactly once (SQL)", "SQLite's atomic commit / rollback"]}
 
-REG = {"C05": c05, "C06": c06, "C17": c17, "C20": c20, "C10": c10, "C18": c18, "C09": c09, "C08": c08, "C14": c14, "C19": c19, "C07": c07}
+
+# ------------------------------------------------------------------------------------------ C04
+K_NAMES = {1: "cif_create_block", 2: "cif_get_block", 3: "cif_container_create_frame", 4: "cif_container_get_frame", 5: "cif_container_create_loop",
+           6: "cif_container_get_item_loop", 7: "cif_container_set_value", 8: "cif_container_get_value", 9: "cif_container_remove_item",
+           10: "cif_loop_add_item", 11: "cif_loop_add_packet", 12: "cif_loop_set_category", 13: "cif_container_get_category_loop", 20: "screening of codes and names"}
+
+
+def c04(tier):
+    import sql_colmap
+    qs = []
+    fns = (1, 2, 3, 4, 5, 6, 8, 9, 10, 11, 12, 13, 20) if tier == "quick" else (1, 2, 3, 4, 5, 6, 7, 8, 9, 10, 11, 12, 13, 20)
+    for f, bs in [(f, b) for f in fns for b in (range(6) if f == 20 else (None,))]:
+        d = {"FN": f, "SENV_COLSTORE": None}
+        if bs is not None:
+            d["BADSEL"] = bs
+        qs.append(Q("C04_keys_%s%s" % (K_NAMES[f].replace(" ", "_"), "" if bs is None else "_%d" % bs), "h04_keys.c", defs=d, extra=SQL_EXTRA, libtus=SQL_TUS,
+                    gen=lambda wd: sql_colmap.gen(wd, REPO), unwind=8,
+                    unwindset=VAL_REC + ["memcmp.*:8", "teardown.*:31", "strcmp.*:900", "strncmp.*:20", "memset.*:700", "sqlite3_prepare_v2.*:40", "step_hook.*:14",
+                                         "sqlite3_clear_bindings.*:18", "sqlite3_finalize.*:18", "sqlite3_step.*:18", "memcpy.*:64", "strlen.*:8", "ueq.*:6"],
+                    mode="func", replay_libs=["-licuio", "-licui18n", "-licuuc", "-licudata"], native_extra=["stubs/icu_norm_cheap.c", "stubs/sqlite_env.c"],
+                    object_bits=10, group="h04_keys", timeout=600 if f == 7 else None,
+                    bounds={"function": K_NAMES[f], "engine": "every outcome sequence", "names": "mixed-case concrete names; screening: 6 representative invalid strings"},
+                    note="key discipline / screening / result codes / isolation"))
+    return qs
+
+
+META["C04"] = {"files": ["cif.c", "container.c", "loop.c", "utils.c", "internal/sql.h"], "functions": list(K_NAMES.values()),
+               "stubs": ["stubs/sqlite_env.c + parameter/result column map extracted from the current sql.h", "stubs/icu_norm_cheap.c (ASCII fold)", "stubs/icu_str.c", "stubs/uthash_model"],
+               "assumptions": ["normalisation = ASCII case fold model"],
+               "outside": ["everything the SQL schema enforces: uniqueness per container, one scalar loop, cascades on destroy, triggers; multi-call histories"]}
+
+REG = {"C04": c04, "C05": c05, "C06": c06, "C17": c17, "C20": c20, "C10": c10, "C18": c18, "C09": c09, "C08": c08, "C14": c14, "C19": c19, "C07": c07}
 
 
 def for_property(pid, tier):
@@ -493,3 +524,13 @@ MANI["C06"] = {
             "statement finalised once.",
     "note": "SQLite replaced by stubs/sqlite_env.c; that the SELECT yields every stored packet once, and atomicity of commit/rollback, are "
             "trusted; loop of two items, <= 2 packets, call sequences <= 5 (quick: 10 curated sequences)"}
+
+MANI["C04"] = {
+    "text": "Bounded model checking of the C half of the data-model mechanism, per storage API function, for every engine outcome sequence: "
+            "`name` parameters bound with the normalised spelling and `name_orig` with the caller's (by the column map extracted from "
+            "the current sql.h), category as given, invalid codes/names refused with the documented code with nothing executed "
+            "(representative invalid strings; the predicate itself is C09), scalar category refused, handles from look-ups carry the name_orig column, nothing executed on "
+            "another CIF's connection.",
+    "note": "PARTIAL by construction: the invariants of the data model (one name per container, one scalar loop, cascade on destroy, "
+            "isolation of stored content) are enforced by the SQL schema inside libsqlite3, which cannot be encoded; a defect confined "
+            "to schema.h or to the meaning of a statement is invisible to this check. SQLite = stubs/sqlite_env.c."}
